@@ -40,13 +40,15 @@ def _sync_fields(s, db=None):
         ("rhlimit", _pt(s["rhlimit"])),
         ("paused", tla(s["paused"])), ("stalled", tla(s["stalled"])),
         ("maxfut", str(s["maxfut"] if isinstance(s["maxfut"], int) else 0)),
+        ("flow_counter", str(s["flow_counter"])), ("stop_task", tla(s["stop_task"] or "none")),
     ]
     if db is not None and db.get("task_pool") is not None:
         rows = ", ".join("<<%s, %d, %s, %s, %s>>" % (tla(n), c, tla(set(f) if isinstance(f, list) else f), tla(st), tla(h))
                          for n, c, f, st, h in db["task_pool"])
-        out += [("hasdb", "TRUE"), ("dbpool", "<<" + rows + ">>")]
+        srows = ", ".join("<<%s, %d, %d, %s>>" % (tla(n), c, sn, tla(st)) for n, c, sn, st in db.get("task_states", []))
+        out += [("hasdb", "TRUE"), ("dbpool", "<<" + rows + ">>"), ("dbstates", "{" + srows + "}")]
     else:
-        out += [("hasdb", "FALSE"), ("dbpool", "<<>>")]
+        out += [("hasdb", "FALSE"), ("dbpool", "<<>>"), ("dbstates", "{}")]
     return out
 
 def event_tla(ev):
@@ -83,13 +85,23 @@ def event_tla(ev):
         f += [("mode", tla(ev["mode"] or "none"))] + _sync_fields(ev["sync"], None)
     elif e == "stall":
         f += _sync_fields(ev["sync"], None)
+    elif e == "sched_stop":
+        f += [("reason", tla(ev["reason"]))] + _sync_fields(ev["sync"], None)
+    elif e == "restored":
+        f += _sync_fields(ev["sync"], ev.get("db"))
+    elif e == "crash":
+        pass
+    elif e == "env_launch":
+        f += [("job", "<<%s, %d, %d>>" % (tla(ev["job"][0]), ev["job"][1], ev["job"][2])), ("ok", tla(ev["ok"]))]
+    elif e == "env_job":
+        f += [("job", "<<%s, %d, %d>>" % (tla(ev["job"][0]), ev["job"][1], ev["job"][2])), ("step", tla(ev["step"]))]
     elif e == "end":
         f += [("reason", tla(ev["reason"]))]
     else:
         return None
     return "[" + ", ".join(f"{k} |-> {v}" for k, v in f) + "]"
 
-KEEP = {"spawn", "remove", "state", "prepare", "msg", "q_release", "rh_compute", "loop_end", "boot", "set_stop",
+KEEP = {"env_job", "sched_stop", "restored", "crash", "env_launch", "spawn", "remove", "state", "prepare", "msg", "q_release", "rh_compute", "loop_end", "boot", "set_stop",
         "stall", "end"}
 
 def run_tla(w_tla: str, events: list, opt: dict):
@@ -106,6 +118,8 @@ def run_tla(w_tla: str, events: list, opt: dict):
         evs.append(s)
         idx.append(ev["i"])
     o = "[" + ", ".join(f"{k} |-> {tla(v)}" for k, v in opt.items()) + "]"
+    if "twin" not in opt:
+        o = o[:-1] + ', hastwin |-> FALSE, twin |-> [launched |-> {}, done |-> {}, reason |-> "none"]]' 
     return "[w |-> %s,\n tr |-> <<\n  %s\n >>,\n opt |-> %s]" % (w_tla, ",\n  ".join(evs), o), idx
 
 def write_tracedata(path: str, runs_tla: list):
